@@ -2,7 +2,7 @@
    order.  Only statements here; proofs live in Proofs/Callbacks*.v.
    Model: Model/Callbacks.v (the Go code after the planned repairs).
    Specification: Spec/CbTrace.v (written from the property statement). *)
-From Tab Require Import Model.Callbacks Spec.CbTrace Proofs.CallbacksBase Proofs.CallbacksSim Proofs.CallbacksProofs Proofs.CallbacksCount.
+From Tab Require Import Model.Callbacks Spec.CbTrace Proofs.CallbacksBase Proofs.CallbacksSim Proofs.CallbacksProofs Proofs.CallbacksCount Proofs.CallbacksOnce.
 
 (* Registering is refused with an error exactly for the unsupported owner/target
    combinations - whatever the state, the owner instance, the time, the callback. *)
@@ -29,26 +29,32 @@ Theorem c13_render_trace : forall h k,
 Proof. exact run_spec. Qed.
 Print Assumptions c13_render_trace.
 
-(* Exactly once per matching target per pass.  FULL STATEMENT (not closed in the
-   time available; kept for the next round):
+(* Exactly once per matching target per render pass, over the WHOLE trace of a
+   pass: for every history inside the quantifier and every registration in
+   force (callback ids distinct), the registration occurs in the pass's trace
+   exactly once on each of its matching targets of the finished table
+   (matches_render, Spec/CbTrace.v: the table / a column 0..n / a row the pass
+   visits / a cell of such a row, and the registration belongs to one of the
+   callback groups invoked there) and not at all on anything else.  By
+   c13_render_trace this trace is the model's render log of every pass.
+   Two facts carry the proof (Proofs/CallbacksOnce.v): a pass visits every row
+   of the table once - NoDup (header :: order) is an invariant of build
+   histories ([final_shape_inv]: fresh ids are not yet in the table, AddRow
+   only takes a row that is not in it, a new header replaces the old one) -
+   and the eight callback groups invoked for a cell are pairwise different
+   (they differ in owner or in time: [cell_groups_sum]). *)
+Theorem c13_once : forall h rg x,
+  wf_hist h = true ->
+  NoDup (map r_cb (final_regs [] h)) ->
+  In rg (final_regs [] h) ->
+  count_occ event_eq_dec (spec_trace (final_regs [] h) (final_shape shape0 h)) (r_cb rg, x)
+  = if matches_render (final_shape shape0 h) rg x then 1 else 0.
+Proof. exact once_render. Qed.
+Print Assumptions c13_once.
 
-     Theorem c13_once : forall h rg x,
-       wf_hist h = true ->
-       NoDup (map r_cb (final_regs [] h)) ->
-       In rg (final_regs [] h) ->
-       count_occ event_eq_dec (spec_trace (final_regs [] h) (final_shape shape0 h)) (r_cb rg, x)
-       = if matches_render (final_shape shape0 h) rg x then 1 else 0.
-
-   (matches_render is defined in Spec/CbTrace.v.)  What is proved is the part
-   that concerns callbacks: the trace is, by c13_render_trace, a concatenation
-   of "positions" [fire regs owner target-class time object] in the documented
-   order, and at every position a registration in force (ids distinct) occurs
-   exactly once if it belongs to that position's callback group and the object
-   is x, and not at all otherwise.  MISSING for the full statement: summing
-   over the positions of spec_trace, which needs that the traversal visits
-   each row once (NoDup (header :: order) for every reachable shape - a C02
-   fact about build histories) and that the eight groups invoked per cell are
-   pairwise different (they differ in owner or time). *)
+(* The building block of c13_once, kept: at one position of the traversal a
+   registration in force occurs exactly once if it belongs to that position's
+   callback group and the object is x, and not at all otherwise. *)
 Theorem c13_once_partial : forall regs rg,
   NoDup (map r_cb regs) -> In rg regs ->
   forall o g tm x' x,
